@@ -1,7 +1,7 @@
 """C01 -- group scoping: TexGroups.tla bound to the real VM (edge programs + deep traces)."""
 import json
 from vlib import *
-from texvm import texvm_part, texvm_selftest
+from texvm import texvm_source_part, texvm_part, texvm_selftest
 
 LEVEL = "model_checking"
 DEVS = {"gdef-ignores-negative-globaldefs": "Trace_TexGroups_dev.cfg"}
@@ -60,6 +60,9 @@ def run(ctx):
     ]
     # ---- the composed model: whole programs over the full primitive set (TexVM.tla) ------------
     texvm_part(ctx, 6000 if ctx.quick else 80000, 101)
+    # category codes and the line end are scoped like every other assignment - and here their scope shows in how the
+    # rest of the file is read (TexVM with the lexer in the loop)
+    texvm_source_part(ctx, 1200 if ctx.quick else 20000, 111, name="TexVM.scoped_codes_read_from_characters")
 
 
 def selftest(ctx):
